@@ -107,7 +107,15 @@ def generate(rng, tier, i):
         return gen_loss_case(rng, tier, i // 4)
     j = (i // 4) * 3 + i % 4
     cls = OC_CLASSES[j % len(OC_CLASSES)]
-    if cls in SMALL:
+    if i % 1200 == 598:
+        # a batch whose (R + 1) x (R + 1) x N working set runs to millions of entries, N not a round number
+        R = rng.choice([63, 127, 255])
+        cells = rng.choice([2 ** 20, 2 ** 21, 2 ** 22, 2 ** 22])
+        N = max(3, int(cells * rng.uniform(1.0, 2.2)) // (R + 1) ** 2 + rng.randint(1, 13))
+        case = G.gen_string_case(rng, tier, G.CLASSES.index(rng.choice(["ragged", "equal_costs", "unequal_costs"])),
+                                 dims=(N, R, rng.randint(3, 6)))
+        case["class"] = "huge_batch"
+    elif cls in SMALL:
         base = cls[len("small_"):]
         case = G.gen_string_case(rng, tier, G.CLASSES.index(base), max_len=4)
         case["class"] = cls
